@@ -33,6 +33,14 @@ CHECKS = {
     "C15": ("stress_tensor.py + density.py on the symbolic jet table with symbolic alpha, beta (special values as paths): stress tensor = "
             "documented expression and symmetric, force = -div of the reference tensor, Hessian = Jacobian of the reference force, "
             "symmetric option.", SX + " + path exploration", "5 C15"),
+    "C16": ("Exact interpolatory quadrature of the library's own pointwise evaluations (symbolic grid around the product centre) equals its "
+            "analytic overlap, moment and kinetic matrices element-wise, and tr(P S), tr(P T) for a single shell - code vs code.", SX, "5 C16"),
+    "C17": ("Sufficient condition: arrays proved equal to Gram forms within C17's bounds (PSD / Schwarz then follow from a TRUSTED lemma); direct "
+            "solver proofs of |S|<=1, 2x2 minors, (ab|ab)>=0 and the Schwarz inequality for s-type shells using exp / Boys bound instances. "
+            "A Gram-form mismatch is reported only if the inequalities fail on the real output.", SX + " + trusted Gram lemma", "5 C17"),
+    "C20": ("Screening predicate == documented cutoff with the smallest exponents (min as path splits), None / bool handling, monotonicity in the "
+            "tolerance, screened matrices == unscreened with exactly those blocks zeroed through all assembly paths, conservative bound for "
+            "s-type pairs (solver-proved with ln/exp monotonicity instances).", SX + " + path exploration", "5 C20"),
     "C07": ("Moment block = closed form for every (la,lb) and order triple within bounds, order axis, overlap at order 0, "
             "binomial origin shift (code vs code).", SX, "5 C07"),
     "C08": ("Momentum / angular-momentum blocks = closed forms for every ordered pair; public matrices equal the reference for "
